@@ -326,6 +326,13 @@ fn run_history(cfg: Cfg, body: &[u8], reqs: &[Req]) -> X {
             Some([X::N(93), _, X::B(w)]) => w.clone(),
             _ => return last,
         };
+        // the server announced more bytes than it sent and closed the connection: what the server did, not trouble
+        if what.ends_with(b"closed inside the body") {
+            if let X::L(l) = &mut last {
+                l[0] = X::N(94);
+            }
+            return last;
+        }
         if !what.starts_with(b"TimedOut") {
             return last;
         }
